@@ -16,6 +16,9 @@ structure Ver where
   tx  : Nat
   cid : Nat
   seq : Nat
+  /-- ghost: the content number stored under `cid` (`none` = tombstone written by Delete). The code
+      finds it through the `fileContent/<cid>` record; `Sys.Inv.stor` proves the two agree. -/
+  val : Option Nat := none
 deriving DecidableEq, Repr, Inhabited
 
 /-- `binarySearch` of file.go:124-142, same three branches, same slice bounds
